@@ -82,6 +82,17 @@ func (r *ExtRun) hook(ext, hook, path, info string) (nilFinish bool) {
 type SimExt struct {
 	N string
 	R *ExtRun
+	// Detach makes every hook hand back a context that keeps the values but not
+	// the cancellation of the one it was given (a tracing extension attaching a
+	// span to a detached context)
+	Detach bool
+}
+
+func (e *SimExt) out(ctx context.Context) context.Context {
+	if e.Detach && ctx != nil {
+		return context.WithoutCancel(ctx)
+	}
+	return ctx
 }
 
 func (e *SimExt) Name() string { return e.N }
@@ -116,9 +127,9 @@ func (e *SimExt) ValidationDidStart(ctx context.Context) (context.Context, graph
 
 func (e *SimExt) ExecutionDidStart(ctx context.Context) (context.Context, graphql.ExecutionFinishFunc) {
 	if e.R.hook(e.N, "ES", "", "") {
-		return ctx, nil
+		return e.out(ctx), nil
 	}
-	return ctx, func(r *graphql.Result) {
+	return e.out(ctx), func(r *graphql.Result) {
 		info := "nilresult"
 		if r != nil {
 			info = fmt.Sprintf("data=%v nerr=%d", r.Data != nil, len(r.Errors))
@@ -130,9 +141,9 @@ func (e *SimExt) ExecutionDidStart(ctx context.Context) (context.Context, graphq
 func (e *SimExt) ResolveFieldDidStart(ctx context.Context, i *graphql.ResolveInfo) (context.Context, graphql.ResolveFieldFinishFunc) {
 	path := PathString(i.Path)
 	if e.R.hook(e.N, "RS", path, "") {
-		return ctx, nil
+		return e.out(ctx), nil
 	}
-	return ctx, func(v interface{}, err error) {
+	return e.out(ctx), func(v interface{}, err error) {
 		e.R.hook(e.N, "RE", path, fmt.Sprintf("%s %s", valKind(v), errInfo(err)))
 	}
 }
